@@ -129,3 +129,78 @@ def op_history_batch(task):
 
 
 OPS["history_batch"] = op_history_batch
+
+
+def op_irfuncs(task):
+    """C06(b): print generated IR functions with the REAL ir_to_c / ir_to_llvm, compile both, run them."""
+    from cffi import FFI
+
+    from tensora.codegen import ir_to_c, ir_to_llvm
+    from tensora.compile._compile_cffi import taco_define_header
+    from tensora.compile._compile_llvm import compile_module
+    from tensora.ir.ast import Module
+
+    from . import irjson
+
+    sig = "int32_t {name}(int32_t* a, double* fa, int32_t* w, int32_t* iout, double* fout)"
+    funcs = task["funcs"]
+    fds = []
+    for f in funcs:
+        img = dict(f["image"])
+        body = irjson.dec(img["body"])
+        params = [irjson.dec(p) for p in img["parameters"]]
+        from tensora.ir.ast import FunctionDefinition, Variable
+
+        fds.append(FunctionDefinition(Variable(f["name"]), params, irjson.dec_type(img["return_type"]), body))
+    module = Module(fds)
+    tool_errors = []
+    # --- C
+    clib = None
+    ffi = FFI()
+    try:
+        c_text = ir_to_c(module)
+        ffi.cdef("\n".join(sig.format(name=f["name"]) + ";" for f in funcs))
+        ffi.set_source("irfuncs_mod", "#include <stdint.h>\n#include <stdlib.h>\n" + taco_define_header + c_text,
+                       extra_compile_args=["-Wno-unused-variable", "-O1"])
+        import tempfile
+
+        tmp = tempfile.mkdtemp(prefix="irf-", dir=str(irjson.__file__).rsplit("/harness/", 1)[0] + "/.work")
+        try:
+            path = ffi.compile(tmpdir=tmp)
+            clib = ffi.dlopen(path)
+        finally:
+            import shutil
+
+            shutil.rmtree(tmp, ignore_errors=True)
+    except Exception as e:  # noqa: BLE001
+        tool_errors.append({"tool": "gcc", "name": funcs[0]["name"], "msg": f"{type(e).__name__}: {e}"[:400]})
+    # --- LLVM
+    engine = None
+    try:
+        engine = compile_module(module)
+    except Exception as e:  # noqa: BLE001
+        tool_errors.append({"tool": "llvm", "name": funcs[0]["name"], "msg": f"{type(e).__name__}: {e}"[:400]})
+    results = []
+    cast = "int32_t(*)(int32_t*, double*, int32_t*, int32_t*, double*)"
+    for f in funcs:
+        runs = {}
+        for ei in f["envs"]:
+            env = task["envs"][ei]
+            outs = {}
+            for backend in ("c", "llvm"):
+                if backend == "c" and clib is None or backend == "llvm" and engine is None:
+                    continue
+                a = ffi.new("int32_t[]", env["a"])
+                fa = ffi.new("double[]", env["fa"])
+                w = ffi.new("int32_t[]", [0] * 4)
+                iout = ffi.new("int32_t[]", [-777] * 4)
+                fout = ffi.new("double[]", [-777.0] * 2)
+                fn = getattr(clib, f["name"]) if backend == "c" else ffi.cast(cast, engine.get_function_address(f["name"]))
+                ret = fn(a, fa, w, iout, fout)
+                outs[backend] = {"ret": ret, "w": list(w), "iout": list(iout), "fout": list(fout)}
+            runs[str(ei)] = outs
+        results.append({"name": f["name"], "runs": runs})
+    return {"results": results, "tool_errors": tool_errors}
+
+
+OPS["irfuncs"] = op_irfuncs
